@@ -14,11 +14,13 @@ import (
 	"encoding/json"
 	"fmt"
 	"io"
+	"sort"
 	"strconv"
 	"strings"
 	"sync"
 	"time"
 
+	"github.com/cloudwego/eino/callbacks"
 	"github.com/cloudwego/eino/compose"
 	"github.com/cloudwego/eino/schema"
 
@@ -76,6 +78,20 @@ type Call struct {
 	Stream bool  `json:"stream,omitempty"`   // the output is taken as a stream (Stream / Transform)
 	InStr  bool  `json:"instr,omitempty"`    // the input is given as a stream (Collect / Transform)
 	CpPos  int   `json:"cppos,omitempty"` // resume cases: position of WithCheckPointID among the passed options
+	// Host > 0 (single calls only): the call is not issued from a fresh context but by user code
+	// inside a lambda node of another running graph, with that lambda's context (which carries the
+	// host's node path and callback manager): 1 = the host is a compose.Graph with the one lambda,
+	// 2 = the lambda sits inside a nested graph of the host (node path of length 2), 3 = the host is
+	// a compose.Chain; 4 = no host graph, the call is made directly with a context in which the
+	// caller has installed handlers (callbacks.InitCallbacks). The property does not care where a
+	// call comes from: it must behave like the same call from a fresh context, except that the
+	// handlers already in the context (HostHs: global handlers of the host's own call) are in front
+	// of every callback manager. HostBait: the host's call also carries undesignated component
+	// options of every component type of the forest — options of ANOTHER call, which no node of the
+	// hosted call may receive.
+	Host     int   `json:"host,omitempty"`
+	HostHs   []int `json:"hosths,omitempty"`
+	HostBait bool  `json:"hostbait,omitempty"`
 }
 
 type Case struct {
@@ -454,6 +470,102 @@ func callRunnable(ctx context.Context, r compose.Runnable[map[string]any, map[st
 	return e
 }
 
+// callHosted issues the call from inside a lambda node of a host graph (built and compiled for
+// this one call), with the lambda's context. Returns the error of the inner call (or of the host
+// when the inner call was never made / the host failed on its own).
+func callHosted(ctx context.Context, F []Graph, ci int, r compose.Runnable[map[string]any, map[string]any], in map[string]any, cl Call, opts []compose.Option) error {
+	if cl.Host == 4 {
+		// no host graph: the caller's context already holds handlers
+		hctx := callbacks.InitCallbacks(ctx, &callbacks.RunInfo{Name: "caller"}, mkHandlers(cl.HostHs)...)
+		return callRunnable(hctx, r, in, cl, opts)
+	}
+	// the options of the host's own call
+	var hostOpts []compose.Option
+	if len(cl.HostHs) > 0 {
+		hostOpts = append(hostOpts, compose.WithCallbacks(mkHandlers(cl.HostHs)...))
+	}
+	if cl.HostBait {
+		for k, ty := range baitTypes(F) {
+			hostOpts = append(hostOpts, mkOption([][2]int{{ty, baitBase(ci) + k}}, false))
+		}
+	}
+	var mu sync.Mutex
+	calls := 0
+	var innerErr error
+	l := compose.InvokableLambda(func(lctx context.Context, x map[string]any) (map[string]any, error) {
+		e := callRunnable(lctx, r, x, cl, opts)
+		mu.Lock()
+		calls++
+		innerErr = e
+		mu.Unlock()
+		if e != nil {
+			return nil, e
+		}
+		return x, nil
+	})
+	var host compose.Runnable[map[string]any, map[string]any]
+	var err error
+	switch cl.Host {
+	case 3:
+		ch := compose.NewChain[map[string]any, map[string]any]()
+		ch.AppendLambda(l, compose.WithNodeName("host"), compose.WithNodeKey("host"))
+		host, err = ch.Compile(ctx, compose.WithGraphName("hostgraph"))
+	default:
+		inner := compose.NewGraph[map[string]any, map[string]any]()
+		if err = inner.AddLambdaNode("host", l, compose.WithNodeName("host")); err != nil {
+			return fmt.Errorf("harness: host: %w", err)
+		}
+		_ = inner.AddEdge(compose.START, "host")
+		_ = inner.AddEdge("host", compose.END)
+		g := inner
+		if cl.Host == 2 {
+			g = compose.NewGraph[map[string]any, map[string]any]()
+			if err = g.AddGraphNode("hostsub", inner, compose.WithNodeName("hostsub")); err != nil {
+				return fmt.Errorf("harness: host: %w", err)
+			}
+			_ = g.AddEdge(compose.START, "hostsub")
+			_ = g.AddEdge("hostsub", compose.END)
+		}
+		host, err = g.Compile(ctx, compose.WithGraphName("hostgraph"))
+	}
+	if err != nil {
+		return fmt.Errorf("harness: host does not compile: %w", err)
+	}
+	_, herr := host.Invoke(ctx, in, hostOpts...)
+	mu.Lock()
+	defer mu.Unlock()
+	switch {
+	case calls != 1:
+		return fmt.Errorf("harness: the host made %d calls: %v", calls, herr)
+	case innerErr != nil:
+		return innerErr
+	case herr != nil:
+		return fmt.Errorf("harness: the host failed although the hosted call succeeded: %w", herr)
+	}
+	return nil
+}
+
+// baitTypes: the component option types that occur in the forest (sorted)
+func baitTypes(F []Graph) []int {
+	seen := map[int]bool{}
+	for _, g := range F {
+		for _, nd := range g.Nodes {
+			if nd.Kind == "comp" && nd.Ty != tyNone {
+				seen[nd.Ty] = true
+			}
+		}
+	}
+	out := make([]int, 0, len(seen))
+	for ty := range seen {
+		out = append(out, ty)
+	}
+	sort.Ints(out)
+	return out
+}
+
+// baitBase: payload ids of the options of the host's call (owned by no call of the case)
+func baitBase(ci int) int { return 9000 + 100*ci }
+
 type visitFn func(p []int, nd Node)
 
 // walk enumerates, in DFS order of the forest, the nodes that execute (every ancestor sub
@@ -511,7 +623,11 @@ func runCase(c *Case) (obs []CallObs, fatal string) {
 		go func() {
 			defer close(done)
 			pan = lib.Recover(func() {
-				cerr = callRunnable(cctx, r, b.input(), cl, opts[i])
+				if cl.Host > 0 {
+					cerr = callHosted(cctx, c.Forest, i, r, b.input(), cl, opts[i])
+				} else {
+					cerr = callRunnable(cctx, r, b.input(), cl, opts[i])
+				}
 			})
 		}()
 		select {
@@ -799,6 +915,17 @@ func (engine) Run(ci any) lib.Result {
 		terms[i] = lib.CoqPair(coqCall(c.Calls[i]), coqObs(obs[i]))
 	}
 	res.CoqTerm = lib.CoqApp("Case", coqForest(c.Forest), lib.CoqList(terms))
+	hosted := false
+	for _, cl := range c.Calls {
+		hosted = hosted || len(cl.HostHs) > 0
+	}
+	if hosted && !c.Resume {
+		// calls issued with handlers already in their context: Model/OptionsHosted.v run_hosted
+		for i := range c.Calls {
+			terms[i] = "(" + coqInts(c.Calls[i].HostHs) + ", " + coqCall(c.Calls[i]) + ", " + coqObs(obs[i]) + ")"
+		}
+		res.CoqTerm = lib.CoqApp("CaseH", coqForest(c.Forest), lib.CoqList(terms))
+	}
 	if c.Resume {
 		res.CoqTerm = coqResumeCase(c, obs)
 	}
